@@ -30,7 +30,7 @@ macro "epv_semi_inv_nf" : tactic =>
 macro "epv_semi_eq" : tactic =>
   `(tactic| first
     | done
-    | rfl
+    | with_reducible rfl
     | ring1
     | (ring_nf; done)
     | (simp only [div_eq_mul_inv, mul_inv, inv_inv]; ring_nf; done)
@@ -39,7 +39,10 @@ macro "epv_semi_eq" : tactic =>
     | (field_simp; ring_nf; done)
     | (simp only [div_eq_mul_inv, mul_inv, inv_inv, mul_one, one_mul, mul_neg, neg_mul, add_zero, zero_add,
         sub_zero, mul_zero, zero_mul, neg_zero, zero_div]; ring_nf; done)
-    | (norm_num; first | done | ring1 | (ring_nf; done)))
+    | (norm_num; first | done | ring1 | (ring_nf; done))
+    -- last: `rfl` at default transparency (on two different large real terms it can run into the heartbeat limit
+    -- instead of failing, so it must not come before the normalising alternatives)
+    | rfl)
 
 /-- a conjunction of `epv_semi_eq` goals, whatever its length -/
 macro "epv_semi_conj" : tactic =>
@@ -233,11 +236,11 @@ macro "epv_semi_walk" : tactic => `(tactic| repeat' (first | epv_semi_prune1 | e
 
 /-- proof of a bridge lemma `M.L<i>.<field> … = <closed form>` -/
 macro "epv_semi_bridge_leaf" : tactic =>
-  `(tactic| first | rfl | (simp only [epv_leaf] <;> epv_semi_eq))
+  `(tactic| first | (simp only [epv_leaf]; done) | (simp only [epv_leaf] <;> epv_semi_eq))
 
 /-- proof of a bridge lemma `M.L<i>.<field>_d<v> … = <closed form>` -/
 macro "epv_semi_bridge_deriv" : tactic =>
-  `(tactic| first | rfl | (simp only [epv_deriv] <;> epv_semi_eq))
+  `(tactic| first | (simp only [epv_deriv]; done) | (simp only [epv_deriv] <;> epv_semi_eq))
 
 /-- proof of a bridge lemma `M.c<i> … ↔ <documented test>` -/
 macro "epv_semi_bridge_cond" : tactic =>
